@@ -199,7 +199,8 @@ def _sub_head(vc, v, entering):
     vc.stash("subscribe.iteration", entering)
 
 
-LOOPS = {("someip.sd.ServiceSubscriber._subscribe", 0): {"head": _sub_head}}
+# the refresh loop ends by design: after one round without a refresh interval, or when cancelled in its wait
+LOOPS = {("someip.sd.ServiceSubscriber._subscribe", 0): {"head": _sub_head, "may_exit": True}}
 
 
 def ob_start_and_refresh(vc):
